@@ -381,7 +381,7 @@ func engineRetryRuns(rng *rand.Rand, n int, tier string, o *Out) {
 				case 0:
 					at.out.kind = 2
 				case 1:
-					at.out.kind = []int{3, 4}[rng.Intn(2)]
+					at.out.kind = []int{3, 4, 5, 6, 7, 8}[rng.Intn(6)]
 				case 2:
 					at.out.kind, at.out.code = 1, interesting[rng.Intn(len(interesting))]
 				default: // mostly retryable, so that runs have later attempts that can see the damage
